@@ -57,6 +57,9 @@ func c10Receivers() []Val {
 		Bool(true), Bool(false), Null(),
 		List(), List(Num(1), Num(2), Num(3)), List(Text("a"), Text("b")), List(List(Num(1)), Dict([]string{"k"}, []Val{Num(1)}), Null()),
 		Dict(nil, nil), Dict([]string{"甲", "乙"}, []Val{Num(1), Text("x")}), Dict([]string{"列", "典"}, []Val{List(Num(1)), Dict([]string{"内"}, []Val{Null()})}),
+		// keys that are legal but unusual: the empty text, a blank, NUL, a quote, a number spelling, a long one
+		Dict([]string{"", " ", "\x00"}, []Val{List(Num(1), Num(2)), Dict([]string{""}, []Val{Dict([]string{""}, []Val{List()})}), Num(3)}),
+		Dict([]string{"”", "1", "1.0", strings.Repeat("键", 200)}, []Val{Num(1), List(Dict([]string{""}, []Val{List(Null())})), Text(""), Null()}),
 		{T: "object", Name: "用户类"}, {T: "object", Name: "HTTP请求"}, {T: "object", Name: "HTTP响应"}, {T: "object", Name: "样品"},
 		{T: "type", Name: "异常"}, {T: "type", Name: "数值"}, {T: "type", Name: "HTTP请求"}, {T: "type", Name: "HTTP响应"}, {T: "type", Name: "样品"}, {T: "type", Name: "空类"},
 		{T: "method", Name: "显示"}, {T: "method", Name: "取随机数"}, {T: "method", Name: "解析JSON"}, {T: "method", Name: "生成JSON"},
@@ -70,7 +73,7 @@ func c10Args() []Val {
 		Num(0), Num(1), Num(2), Num(-1), Num(-5), Num(0.5), Num(2.5), Num(1e18), Num(-1e18), Num(9.3e18), Num(math.Inf(1)), Num(math.Inf(-1)), Num(math.NaN()),
 		Text(""), Text("a"), Text("甲"), Text("😀"), Text("{\"a\":1}"), Text("[1,2"), Text("verif-c10-out.txt"),
 		Bool(true), Null(),
-		List(), List(Num(1), Text("a")), List(List()), Dict(nil, nil), Dict([]string{"甲"}, []Val{Num(math.NaN())}),
+		List(), List(Num(1), Text("a")), List(List()), Dict(nil, nil), Dict([]string{"甲"}, []Val{Num(math.NaN())}), Dict([]string{""}, []Val{List(Num(1))}),
 		{T: "object", Name: "用户类"}, {T: "type", Name: "异常"}, {T: "method", Name: "显示"}, {T: "exception", Str: "e"}, {T: "self"},
 	}
 }
@@ -97,7 +100,7 @@ func checkC10(c *Ctx) {
 	// the deepest inputs of this check need a few GiB in the worker: a wider memory budget than the default
 	c.Pool.Env = append(c.Pool.Env, "ZNWORKER_RSS_LIMIT_MB=10240")
 	c.Pool.LongRetry = true
-	c.rule = "API driver: every receiver of a 51-value pool (all value types incl. objects, types, library functions, exception, Go value) x every member name extracted from the working tree (+unknown names) x {get, set, call, new, fn, str, dup, twin (continue on the copy), cmp, json} x argument tuples (arity 0..1 exhaustive over a 32-value boundary pool, arity 2 exhaustive in thorough, arity 2..4 random; for list / dictionary / text receivers additionally every position and position pair in [-2, length+2]), applied as step sequences on one receiver; plus scripted histories that copy a list / dictionary of 0..9 elements and alternate insertions and removals between the value and its copy, displaying both. Program driver: one- and two-statement Zn programs applying every operator / index / member / call / new / throw / loop form to input variables drawn from the same pools; plus user methods / type methods whose body ends in each of 25 failures (with no handler, a handler without and with 输出) whose call is placed in each of 26 consumer positions. Whole-program driver: programs made of definitions / comments / imports only and programs yielding each kind of value, through Execute and through the playground HTTP handler; runaway recursion (plain, mutual, through a type method, through a constructor) without a logical budget. Input-variable driver: texts without any statement (line breaks, comments, imports only), every right-hand-side kind, failing and ill-formed texts through ExecVarInputText. Traversal driver: every mutating list / dictionary method applied to the collection a 遍历 is running over (lists of 1, 2, 3, 6 items; directly, in a called method, through an alias parameter). Host driver: 21 programs served by ZnHttpHandler that answer with an HTTP响应 object whose 头部 / 状态码 / 内容 have the wrong type or whose status is 0, negative, fractional, 99, 1000, 1e19, infinite or NaN. Violation = recovered Go panic, nil element without error, worker exit, or hang. distinct_nontrivial = distinct (receiver kind, step kind, member, arg kinds, outcome kind)"
+	c.rule = "API driver: every receiver of a 53-value pool (dictionaries with unusual but legal keys - the empty text, a blank, NUL, a quote, number spellings, a 200-character key - among them) (all value types incl. objects, types, library functions, exception, Go value) x every member name extracted from the working tree (+unknown names) x {get, set, call, new, fn, str, dup, twin (continue on the copy), cmp, json} x argument tuples (arity 0..1 exhaustive over a 33-value boundary pool, arity 2 exhaustive in thorough, arity 2..4 random; for list / dictionary / text receivers additionally every position and position pair in [-2, length+2]), applied as step sequences on one receiver; plus scripted histories that copy a list / dictionary of 0..9 elements and alternate insertions and removals between the value and its copy, displaying both. Program driver: one- and two-statement Zn programs applying every operator / index / member / call / new / throw / loop form to input variables drawn from the same pools; plus user methods / type methods whose body ends in each of 25 failures (with no handler, a handler without and with 输出) whose call is placed in each of 26 consumer positions. Whole-program driver: programs made of definitions / comments / imports only and programs yielding each kind of value, through Execute and through the playground HTTP handler; runaway recursion (plain, mutual, through a type method, through a constructor) without a logical budget. Input-variable driver: texts without any statement (line breaks, comments, imports only), every right-hand-side kind, failing and ill-formed texts through ExecVarInputText. Traversal driver: every mutating list / dictionary method applied to the collection a 遍历 is running over (lists of 1, 2, 3, 6 items; directly, in a called method, through an alias parameter). Host driver: 21 programs served by ZnHttpHandler that answer with an HTTP响应 object whose 头部 / 状态码 / 内容 have the wrong type or whose status is 0, negative, fractional, 99, 1000, 1e19, infinite or NaN. Violation = recovered Go panic, nil element without error, worker exit, or hang. distinct_nontrivial = distinct (receiver kind, step kind, member, arg kinds, outcome kind)"
 	c.assumptions = []string{"library functions run inside the worker's private scratch directory", "member tables are read from /repo sources at check time by a string-literal scan"}
 	rng := c.Rand("c10")
 	members := memberNames()
